@@ -160,14 +160,19 @@ func (sr *sinkRegistry) newFileSinkFromPath(path string) (Sink, error) {
 
 func normalizeScheme(s string) (string, error) {
 	// https://tools.ietf.org/html/rfc3986#section-3.1
-	s = strings.ToLower(s)
-	if first := s[0]; 'a' > first || 'z' < first {
+	//
+	// Validate before lower-casing: strings.ToLower maps some non-ASCII
+	// runes (such as the Kelvin sign) to ASCII letters.
+	isLetter := func(c byte) bool {
+		return ('a' <= c && c <= 'z') || ('A' <= c && c <= 'Z')
+	}
+	if first := s[0]; !isLetter(first) {
 		return "", errors.New("must start with a letter")
 	}
 	for i := 1; i < len(s); i++ { // iterate over bytes, not runes
 		c := s[i]
 		switch {
-		case 'a' <= c && c <= 'z':
+		case isLetter(c):
 			continue
 		case '0' <= c && c <= '9':
 			continue
@@ -176,5 +181,5 @@ func normalizeScheme(s string) (string, error) {
 		}
 		return "", fmt.Errorf("may not contain %q", c)
 	}
-	return s, nil
+	return strings.ToLower(s), nil
 }
